@@ -69,16 +69,16 @@ def swap_axes(self, axis1, axis2, recursive=True):
 
     # Validate first axis
     len_shape = len(self._shape_)
-    a1 = axis1 % len_shape
-    if a1 < 0 or a1 >= len_shape:
+    if axis1 < -len_shape or axis1 >= len_shape:
         raise ValueError('axis1 out of range (%d,%d) in %s.swap_axes(): %d'
                          % (-len_shape, len_shape, type(self).__name__, axis1))
+    a1 = axis1 % len_shape
 
     # Validate second axis
-    a2 = axis2 % len_shape
-    if a2 < 0 or a2 >= len_shape:
+    if axis2 < -len_shape or axis2 >= len_shape:
         raise ValueError('axis2 out of range (%d,%d) in %s.swap_axes(): %d'
                          % (-len_shape, len_shape, type(self).__name__, axis2))
+    a2 = axis2 % len_shape
 
     if a1 == a2:
         return self
@@ -202,6 +202,11 @@ def move_axis(self, source, destination, recursive=True, rank=None):
         source = (source,)
     if isinstance(destination, numbers.Integral):
         destination = (destination,)
+
+    for x in tuple(source) + tuple(destination):
+        if x < -rank or x >= rank:
+            raise ValueError('%s.move_axis() axis out of range (%d,%d): %d'
+                             % (type(self).__name__, -rank, rank, x))
 
     source = tuple([x % rank for x in source])
     destination = tuple([x % rank for x in destination])
